@@ -389,6 +389,66 @@ def second_run_setup_py(single_quotes: bool, attr_call: bool, declared: int) -> 
     return fin(cs1 is not None and n1 == 1 and cs2 is None and after2 == after1 and "requests" in after1)
 
 
+PYPROJECT_LAYOUTS = [
+    '[tool.poetry]\nname = "x"\n\n[tool.poetry.dependencies]\npython = "^3.9"\nrequests = "*"\n',
+    '[tool.poetry]\nname = "x"\n\n[tool.poetry.dependencies]\npython = "^3.9"\ndefusedxml = "~0.7"\n',
+    '[tool.poetry]\nname = "x"\n\n[tool.poetry.dependencies]\npython = "^3.9"\ndefusedxml = {version = "^0.7", optional = true}\n',
+    '[project]\nname = "x"\ndependencies = ["requests"]\n',
+    '[project]\nname = "x"\ndependencies = [\n    "requests",\n]\n',
+    '[project]\nname = "x"\ndependencies = ["requests", "defusedxml>=0.6"]\n',
+]
+
+
+def pyproject_round_trip(layout: int, two: bool) -> bool:
+    """Parser + writer round trip on pyproject.toml (real PyprojectTomlParser and PyprojectWriter, tomlkit untraced) over
+    6 layouts - poetry table (package absent / present with a `~` version / present as an inline table), [project]
+    inline and multi-line arrays, package already listed - adding one or two packages: nothing is raised; either the
+    manifest is untouched and no ChangeSet is returned, or it still parses, keeps `requests` and every change line lies
+    inside the file; a package that is already a key / entry is never written a second time; a second run adds nothing.
+    post: _
+    """
+    import tomlkit
+
+    import codemodder.dependency_management.pyproject_writer as pw
+    import codemodder.project_analysis.file_parsers.pyproject_toml_file_parser as ptp
+
+    k = 0
+    while k < len(PYPROJECT_LAYOUTS) - 1:
+        if layout % len(PYPROJECT_LAYOUTS) == k:
+            break
+        k += 1
+    text = PYPROJECT_LAYOUTS[k]
+    two = True if two else False
+    deps = [DefusedXML, Security] if two else [DefusedXML]
+    path = "/d/pyproject.toml"
+    fs = FakeFS({path: text})
+    pw.open = fs.open
+    ptp.open = fs.open
+    try:
+        with NoTracing():
+            try:
+                store1 = ptp.PyprojectTomlParser(Path("/d"))._parse_file(Path(path))
+                cs1 = DependencyManager(store1, Path("/d")).write(deps, False)
+                after1 = fs.files[path]
+                store2 = ptp.PyprojectTomlParser(Path("/d"))._parse_file(Path(path))
+                cs2 = DependencyManager(store2, Path("/d")).write(deps, False)
+                after2 = fs.files[path]
+            except Exception:  # noqa
+                return False
+            if cs1 is None:
+                ok = after1 == text
+            else:
+                doc = tomlkit.loads(after1)
+                n_lines = len(after1.split("\n"))
+                ok = ("requests" in after1) == ("requests" in text) and all(1 <= c.lineNumber <= n_lines for c in cs1.changes)
+                ok = ok and after1.count("security") == (1 if two else 0) and doc is not None
+            ok = ok and after1.lower().count("defusedxml") == 1 and cs2 is None and after2 == after1
+    finally:
+        del pw.open
+        del ptp.open
+    return fin(ok)
+
+
 def two_codemods_one_manifest(same_dep: bool, declared: bool, swap: bool) -> bool:
     """Two codemods of one run needing a package (the same or different ones) share the run's parsed manifest: each
     needed package ends up listed exactly once, as after one-at-a-time runs (obligation shared with C09).
@@ -534,6 +594,7 @@ SPEC = {
         Xh("setup_cfg", 400, 1500),
         Xh("already_declared_not_written", 150, 300),
         Xh("second_run_setup_py", 100, 200),
+        Xh("pyproject_round_trip", 100, 200),
         Xh("second_run_requirements_txt", 100, 200),
         Xh("second_run_setup_cfg", 200, 400),
         Xh("two_codemods_one_manifest", 200, 400),
